@@ -28,6 +28,7 @@ class Shape(object):
         if tagging:
             tg = tag.Tag(tag.tagClassContext, tag.tagFormatSimple, tagging[1])
             any_spec = any_spec.subtype(explicitTag=tg) if tagging[0] == 'e' else any_spec.subtype(implicitTag=tg)
+        self.any_spec = any_spec
         field = any_spec
         if multi == 'seqof':
             field = univ.SequenceOf(componentType=any_spec)
@@ -94,6 +95,24 @@ def check_shape(rep, rng, shape, g, inner_types, inners, mapped):
             rep.count('skipped-stray-eoo-region')
             continue
         rep.count('mode=%s/%s' % (cdc, 'def' if dm else 'indef'))
+        # the same record holding the inner values as pre-encoded octets is the same abstract value: same octets
+        # (in particular the same canonical order of SET members and SET OF elements)
+        try:
+            obj2 = shape.schema.clone()
+            obj2['id'] = g
+            if shape.multi:
+                for raw in raws:
+                    obj2['value'].append(shape.any_spec.clone(raw))
+            else:
+                obj2['value'] = shape.any_spec.clone(raws[0])
+            data2 = enc(cdc, obj2, dm)
+        except Exception as e:  # noqa
+            rep.fail(signature(shape, mapped, mode, 'raw-route-' + codec.classify(e)),
+                     'encoding the record with pre-encoded inner values: %r' % (e,), rp)
+            data2 = None
+        if data2 is not None and data2 != data:
+            rep.fail(signature(shape, mapped, mode, 'typed-vs-preencoded'),
+                     'typed inner value gives %s, the same value pre-encoded gives %s' % (data.hex()[:120], data2.hex()[:120]), rp)
         for resolve in (True, False):
             kw = {'decodeOpenTypes': True} if resolve else {}
             try:
